@@ -156,6 +156,18 @@ void ParticleSwarm(const ObjectiveFunction f, const TasDREAM::DreamDomain inside
             // a best strip that was never set holds zeros, not a visited point: it must not be evaluated and adopted
             std::vector<bool> best_is_set = state.cache_best_particle_inside;
             f_constrained(state.best_particle_positions, state.cache_best_particle_fvals, state.cache_best_particle_inside, &best_is_set);
+            // the swarm best is the best of the personal bests, positions provided by the user need not respect that
+            for (size_t i=0; i<num_particles; i++) {
+                if (state.cache_best_particle_inside[i]
+                    and (not state.cache_best_particle_inside[num_particles]
+                         or state.cache_best_particle_fvals[i] < state.cache_best_particle_fvals[num_particles])) {
+
+                    std::copy_n(state.best_particle_positions.begin() + i * num_dimensions, num_dimensions,
+                                state.best_particle_positions.begin() + num_particles * num_dimensions);
+                    state.cache_best_particle_fvals[num_particles] = state.cache_best_particle_fvals[i];
+                    state.cache_best_particle_inside[num_particles] = true;
+                }
+            }
         }
         state.cache_initialized = true;
     }
